@@ -11,6 +11,7 @@ All theorems are about the executable model `NV.C08.exec` / `runCmds` (NV/C08/Mo
 `sc : Scripts`, ALL fuels and ALL command lists.
 -/
 import NV.C08.Safe2
+import NV.C08.Refine
 import NV.C08.Tie
 
 namespace NV.C08
@@ -123,12 +124,12 @@ theorem destructed_never_moved_into (sc : Scripts) (f : Nat) (item dest : Nat) (
     is destructed after the load, the move does not succeed and leaves the structures exactly as the load left them (the
     destructed mover is not linked into the room). -/
 theorem destructed_mover_never_linked (sc : Scripts) (f : Nat) (item : Nat) (b : Base) (w : World) (d : Nat)
-    (hok : (exec sc (f + 1) (.load b) w).out = .ok) (hv : (exec sc (f + 1) (.load b) w).val = some d)
-    (hd : ((exec sc (f + 1) (.load b) w).w.c.objs item).destructed = true) :
+    (hok : (exec sc (f + 1) (.load b true) w).out = .ok) (hv : (exec sc (f + 1) (.load b true) w).val = some d)
+    (hd : ((exec sc (f + 1) (.load b true) w).w.c.objs item).destructed = true) :
     (exec sc (f + 2) (.moveStr item b) w).out ≠ .ok ∧
-    (exec sc (f + 2) (.moveStr item b) w).w.c = (exec sc (f + 1) (.load b) w).w.c := by
+    (exec sc (f + 2) (.moveStr item b) w).w.c = (exec sc (f + 1) (.load b true) w).w.c := by
   have e : exec sc (f + 2) (.moveStr item b) w =
-      (exec sc (f + 1) (.load b) w).andThen fun w v =>
+      (exec sc (f + 1) (.load b true) w).andThen fun w v =>
         match v with
         | none => raise w errNoDest
         | some d => exec sc (f + 1) (.move item d) w := rfl
@@ -393,7 +394,7 @@ theorem catch_restores_guards (sc : Scripts) (f : Nat) (self : Nat) (arg : Optio
   simp only [if_true]
   split
   · simp [emit]
-  · have := ops_nil_guards sc f self arg (emit { r0.w with catching := w.catching, cg := w.cg, restrict := w.restrict } s!"r ct {oid self} 1")
+  · have := ops_nil_guards sc f self arg (emit { r0.w with catching := w.catching, cg := w.cg, restrict := w.restrict, ldepth := w.ldepth } s!"r ct {oid self} 1")
     simpa [emit] using this
 /-- `catch_restores_guards` is not vacuous: `catch (error ("boom"))` -/
 example (sc : Scripts) : (exec sc 1 (.ops 1 none [.err])
@@ -426,6 +427,11 @@ example : WorldInv Core.init ∧ Core.init.n = 2 ∧ (Core.init.objs 1).name = {
   · rw [init_eq]; simp [allocCore, Core.empty]
   · apply (lookup_unique_live init_inv _ 1).1.mpr
     rw [init_eq]; simp [allocCore, Core.empty]
+
+/-- the refinement theorems of NV/C08/Refine.lean are not vacuous: in the initial state the table, read as a map,
+    sends the master's name to object 1 -/
+example : absMap Core.init { base := .master, num := none } = some 1 :=
+  (absMap_spec init_inv _ 1).mpr (by rw [init_eq]; simp [allocCore, Core.empty])
 
 /-- a state with a destructed object: the master-less world after destructing the simul_efun object satisfies the
     invariant, and `destructed_never_visible` applies to object 0 -/
